@@ -337,6 +337,7 @@ func runC11(c *core.Ctx, o Options) {
 	c.Extra["discharged_by_compiler"] = nGC
 	c.Extra["discharged_by_linear_engine"] = nLin
 	c.Extra["tabled_exceptions"] = nExc
+	c.RuleMin = map[string]int{"assert": 4, "bounds": 24, "precond": 2, "term": 8}
 	c.MinObl = 40
 }
 
